@@ -17,7 +17,7 @@ theorem consumedBy_chunked (c : CallSt) (input : Bytes) (cap : Nat)
     cases hwr : c.writer with | mk m e => rw [hwr] at hm he; simp at hm he; simp [hm, he]
   have hne : input.isEmpty = false := by cases input <;> simp_all
   unfold consumedBy CallSt.writeBodyPhase
-  simp only [hw, BodyWriter.leftToSend, BodyWriter.write, Bool.and_false, Bool.false_eq_true, if_false, hne]
+  simp only [hw, BodyWriter.overLimit, BodyWriter.leftToSend, BodyWriter.write, Bool.and_false, Bool.false_eq_true, if_false, hne]
   obtain ⟨cs, _, _, _, _, h5, _⟩ := writeChunks_spec input.length input { out := [], cap := cap } 0 rfl (by simp)
   rw [h5]; simp [W.available]
 
@@ -56,7 +56,7 @@ theorem C19_progress_sized (c : CallSt) (left : Nat) (input : Bytes) (cap : Nat)
   unfold consumedBy CallSt.writeBodyPhase
   have hl : 0 < input.length := by cases input <;> simp_all
   have h2 : decide (input.length > left) = false := by simp; omega
-  simp only [he, Bool.and_false, BodyWriter.leftToSend, hm, h2, Bool.false_eq_true, if_false, BodyWriter.write,
+  simp only [he, Bool.and_false, BodyWriter.overLimit, BodyWriter.leftToSend, hm, h2, Bool.false_eq_true, if_false, BodyWriter.write,
     W.available, List.length_nil, Nat.sub_zero]
   omega
 
